@@ -90,11 +90,16 @@ package req
 // ---- C11: a buffered request is the header block, then exactly the body whose length the header announces ----
 //@ ghost var rwHdr int
 //@ ghost var rwCL int
+// rwHostEmpty: the Host header was empty when last looked at - only then is it filled in from the URI (an explicit
+// Host set by the application - a virtual-host override - is what goes on the wire).
+//@ ghost var rwHostEmpty bool
+//@ ghost var rwUH int
+//@ ghost var rwUHArr int
 //@ func write(req, w, usingProxy) err
 //@   props C11
 //@   abstract
 //@   noinline
-//@   modifies rwHdr, rwCL
+//@   modifies rwHdr, rwCL, rwHostEmpty, rwUH, rwUHArr
 //@   ghostset-at-entry rwHdr = 0
 //@   ghostset-at-entry rwCL = -5
 //@   ghostset after RequestHeader.SetContentLength: rwCL = arg1
@@ -103,6 +108,11 @@ package req
 //@   assert before WriteBinary#1: rwHdr == 1 && rwCL == len(arg1) && hasBody
 //@   ghostset after WriteBinary#1: rwHdr = 2
 //@   assert before writeBodyStream: rwHdr == 0
+//@   ghostset-at-entry rwHostEmpty = false
+//@   ghostset after RequestHeader.Host: rwHostEmpty = (len(result) == 0)
+//@   ghostset after URI.Host: rwUH = len(result)
+//@   ghostset after URI.Host: rwUHArr = arr(result)
+//@   assert before RequestHeader.SetHostBytes: rwHostEmpty && len(arg1) == rwUH && arr(arg1) == rwUHArr && rwUH > 0
 //@   unreachable-return 5 :: hasBody is set whenever the body is non-empty, so the "non-zero body for non-POST request" return is dead
 
 // ---- C01 / C03: reading a buffered request body ----
